@@ -188,13 +188,20 @@ theorem readDimacsBody_edges {γ : Type} (C : GClass γ) (es : List (Nat × Nat)
       | error x => rfl
       | ok G₂ => simp only [List.length_cons]; congr 2; omega
 
-theorem readDimacs_rows {γ : Type} (C : GClass γ) (n m : Nat) (es : List (Nat × Nat)) :
-    readDimacs C (dimacsRows n m es) =
+theorem readDimacsBody_comments {γ : Type} (C : GClass γ) (k : Nat) (st : DSt γ) (rs : List DRow) :
+    readDimacsBody C st (List.replicate k .comment ++ rs) = readDimacsBody C st rs := by
+  induction k with
+  | zero => rfl
+  | succ k ih => simp only [List.replicate_succ, List.cons_append, readDimacsBody, ih]
+
+theorem readDimacs_rows {γ : Type} (C : GClass γ) (k n m : Nat) (es : List (Nat × Nat)) :
+    readDimacs C (dimacsRows k n m es) =
       match GSem.addAll C (C.init n) (es.map (fun e => ((e.1 : Int), (e.2 : Int)))) with
       | .ok G' => if m ≠ es.length then .error .valueError else .ok G'
       | .error _ => .error .valueError := by
   have hn : ¬ ((n : Int) < 0) := by omega
-  simp only [readDimacs, dimacsRows, readDimacsBody, hn, if_false, Int.toNat_natCast, readDimacsBody_edges]
+  simp only [readDimacs, dimacsRows, readDimacsBody_comments, readDimacsBody, hn, if_false, Int.toNat_natCast,
+    readDimacsBody_edges]
   cases GSem.addAll C (C.init n) (es.map (fun e => ((e.1 : Int), (e.2 : Int)))) with
   | error x => rfl
   | ok G' =>
@@ -205,8 +212,8 @@ theorem readDimacs_rows {γ : Type} (C : GClass γ) (n m : Nat) (es : List (Nat 
       simp [hm, this]
 
 /-- T-C14.1 (DIMACS, simple graph) -/
-theorem roundtrip_dimacs_simple {G : SimpleG} (h : SimpleG.Inv G) :
-    ∃ G', readDimacs simpleClass (writeDimacsSimple G) = .ok G' ∧ SimpleG.Same G G' := by
+theorem roundtrip_dimacs_simple (k : Nat) {G : SimpleG} (h : SimpleG.Inv G) :
+    ∃ G', readDimacs simpleClass (writeDimacsSimple k G) = .ok G' ∧ SimpleG.Same G G' := by
   have hvalid : ∀ x ∈ G.edges.map (fun e => ((e.1 : Int), (e.2 : Int))),
       simpleSem.Valid (simpleClass.order (simpleClass.init G.n)) x.1 x.2 := by
     intro x hx
@@ -246,8 +253,8 @@ theorem DiG.Inv.length_edges {G : DiG} (h : DiG.Inv G) : G.edges.length = G.m :=
   exact ((List.perm_ext_iff_of_nodup h.edges_nodup h.nodup).2 (fun e => h.mem_edges)).length_eq
 
 /-- T-C14.1 (DIMACS, directed graph; the same file is read for `digraph` and `dag`) -/
-theorem roundtrip_dimacs_di {G : DiG} (h : DiG.Inv G) :
-    ∃ G', readDimacs diClass (writeDimacsDi G) = .ok G' ∧ DiG.Same G G' := by
+theorem roundtrip_dimacs_di (k : Nat) {G : DiG} (h : DiG.Inv G) :
+    ∃ G', readDimacs diClass (writeDimacsDi k G) = .ok G' ∧ DiG.Same G G' := by
   have hvalid : ∀ x ∈ G.edges.map (fun e => ((e.1 : Int), (e.2 : Int))),
       diSem.Valid (diClass.order (diClass.init G.n)) x.1 x.2 := by
     intro x hx
